@@ -310,7 +310,7 @@ def check(case, r, tier):
         return
     if k == "local":
         for n in range(1, 6):
-            for ev in itertools.product("duSr" if n <= 4 else "duS", repeat=n):
+            for ev in itertools.product("duSrG" if n <= 4 else "duSG", repeat=n):
                 if "u" not in ev and "r" not in ev:
                     continue
                 for use in (".word 1$", "br 1"):
@@ -318,7 +318,7 @@ def check(case, r, tier):
         return
     if k == "local-include":
         for n in range(1, 4):
-            for ev in itertools.product("duSI", repeat=n):
+            for ev in itertools.product("duSIG", repeat=n):
                 if "I" not in ev or ev.count("I") > 1:
                     continue
                 for inc in itertools.product("du", repeat=2):
@@ -329,7 +329,7 @@ def check(case, r, tier):
 
 
 def run_local(events, use, inc, r):
-    """events over d (define local), u (use), S (ordinary label), I (include of file with events inc)"""
+    """events over d (define local), u (use), S (ordinary label), G (exported label 'name::'), I (include of file with events inc)"""
     name = "1$" if use.startswith(".word") else "1"
     base = 0o1000
 
@@ -353,9 +353,10 @@ def run_local(events, use, inc, r):
                     cur["uses"].append(addr)
                     pos.append((addr, cur))
                     addr += 2
-            elif e == "S":
+            elif e in "SG":
+                # an exported label 'name::' is an ordinary label as well: it closes the region just like 'name:'
                 n_s += 1
-                lines.append("%ss%d:" % (prefix, n_s))
+                lines.append("%ss%d:%s" % (prefix, n_s, ":" if e == "G" else ""))
                 regions.append(cur)
                 cur = {"defs": [], "uses": []}
             elif e == "I":
